@@ -53,6 +53,7 @@ pub const C04_KINDS: &[&str] = &[
 	"hdr-nonce-unmined",
 	"hdr-edge-bits",
 	"hdr-proof-nonce",
+	"hdr-proof-unsorted",
 	"hdr-output-mmr-zero-growth",
 	"hdr-kernel-mmr-zero-growth",
 	"hdr-output-mmr-overweight",
@@ -622,6 +623,36 @@ impl World {
 				let i = self.rng.usize_below(b.header.pow.proof.nonces.len());
 				b.header.pow.proof.nonces[i] ^= 1 << self.rng.below(9);
 				b.header.pow.proof.nonces.sort_unstable();
+				remine = false;
+			}
+			"hdr-proof-unsorted" => {
+				// the mined cycle with two neighbouring nonces swapped (positions 2k+1 and 2k+2, so that
+				// every (2k, 2k+1) pair is still ascending): the same edges, hence the same cycle, but not
+				// the canonical ascending form - and another header hash and proof difficulty. A proof is
+				// only valid in canonical form (otherwise one solution yields many hashes to pick the
+				// heaviest from). Never "still valid": no guard through the node's own verifier here.
+				if self.cfg.free_difficulty {
+					return None;
+				}
+				self.mine(&mut b, mine_diff);
+				let n = b.header.pow.proof.nonces.len();
+				if n < 4 {
+					return None;
+				}
+				let honest = b.header.pow.proof.nonces.clone();
+				let mut ks: Vec<usize> = (0..(n - 2) / 2).map(|i| 1 + 2 * i).collect();
+				self.rng.shuffle(&mut ks);
+				// prefer a swap whose hash still reaches the difficulty the header has to reach
+				let mut chosen = false;
+				for k in ks {
+					b.header.pow.proof.nonces = honest.clone();
+					b.header.pow.proof.nonces.swap(k, k + 1);
+					if b.header.pow.to_difficulty(b.header.height) >= mine_diff {
+						chosen = true;
+						break;
+					}
+				}
+				*self.stats.entry(if chosen { "unsorted_proof_reaches_difficulty" } else { "unsorted_proof_below_difficulty" }.into()).or_insert(0) += 1;
 				remine = false;
 			}
 			"hdr-output-mmr-zero-growth" => b.header.output_mmr_size = prev.output_mmr_size,
